@@ -59,6 +59,17 @@ fn programs(prop: Prop, tier: Tier) -> Vec<Program> {
                 "zc.c@0",
                 "multi.d@0+job.d@1",
                 "zc.d@0+recv.d@1",
+                // io_uring only: zero-copy sends that FAIL at send time (write side shut down,
+                // peer reset, unix socket): the kernel still posts two completions, the error
+                // flagged "more" and then the release notification
+                "zcerr.d@0",
+                "zcerr.t@0",
+                "zcerr.c@0",
+                "zcrst.d@0",
+                "zcux.t@0",
+                "zcerr.d@0+recv.d@1",
+                "zcerr.t@0+zcerr.c@0",
+                "zcrst.c@0+zcux.d@1",
             ] {
                 v.push(p(s, 1));
             }
@@ -75,6 +86,16 @@ fn programs(prop: Prop, tier: Tier) -> Vec<Program> {
                     "accept.c@0+recv.d@1",
                     "file.d@0+job.t@1",
                     "read.t@0+read.c@0",
+                    "zcrst.t@0",
+                    "zcrst.c@0",
+                    "zcux.d@0",
+                    "zcux.c@0",
+                    "zcrst.d@0+zcrst.d@0",
+                    "recv.t@0+zcrst.c@1",
+                    "zcux.c@0+job.d@1",
+                    "zc.d@0+zcerr.d@1",
+                    "multi.d@0+zcerr.c@1",
+                    "accept.d@0+zcrst.t@1",
                 ] {
                     v.push(p(s, 1));
                 }
@@ -98,6 +119,9 @@ fn programs(prop: Prop, tier: Tier) -> Vec<Program> {
                 // io_uring only: multishot receive, zero-copy send
                 ("multi.d@0+recv.d@1", 2),
                 ("zc.d@0+recv.d@1", 1),
+                // io_uring only: zero-copy sends that fail at send time (error, then notification)
+                ("zcerr.d@0+recv.d@1", 1),
+                ("zcerr.t@0+zcrst.d@1", 1),
             ] {
                 v.push(p(s, if tier == Tier::Thorough { 2 } else { mr }));
             }
@@ -112,6 +136,9 @@ fn programs(prop: Prop, tier: Tier) -> Vec<Program> {
                     "job.t@0+file.t@1+send.t@2",
                     "recv.c@0+read.c@1+job.c@2",
                     "multi.c@0+zc.d@1+recv.d@2",
+                    "zcerr.d@0+zcerr.d@0+recv.d@1",
+                    "zcux.t@0+recv.d@1+zcrst.c@2",
+                    "zc.d@0+zcerr.t@1",
                 ] {
                     v.push(p(s, 2));
                 }
@@ -956,6 +983,19 @@ fn main() {
             replay,
         });
         report.cap_hit("a worker process crashed; its remaining work items were not explored");
+    }
+    // zero-copy sends that fail at send time: does the running kernel post the two completions
+    // (error flagged "more", then the notification) these programs are there for?
+    if progs.iter().any(|p| p.ops.iter().any(|o| o.kind.zc_fail())) {
+        let two = agg.counters.get("zerocopy_failed_send_two_completions").copied().unwrap_or(0);
+        let one = agg.counters.get("zerocopy_failed_send_single_completion").copied().unwrap_or(0);
+        report.assume("zero-copy sends that fail at send time (kinds zcerr: write side shut down, zcrst: peer reset, zcux: unix socket): their final completion is the kernel's release notification, and that the kernel posts two completions for them (the error flagged 'more', then the notification) is OBSERVED, not assumed: counter zerocopy_failed_send_two_completions counts executions whose hook log shows Multi then Final and whose last completion carried the notification flag; counter zerocopy_failed_send_single_completion counts executions where the error was the only completion");
+        if two == 0 && one > 0 && agg.found.is_empty() && crashed.is_empty() {
+            report.count("zerocopy_failed_send_two_completions", 0);
+            report.assume("ADVISORY: the running kernel delivered a single completion for every failed zero-copy send, so the two-completion path of failed zero-copy sends was NOT exercised by this run (must-reach zerocopy_failed_send_two_completions not enforced); the zcerr/zcrst/zcux programs then only cover the ordinary single-completion error path");
+        } else {
+            report.must_reach("zerocopy_failed_send_two_completions");
+        }
     }
     report.extra(
         "bounds",
